@@ -300,9 +300,40 @@ def r4_unix_length(r, facts):
     r.floor(1)
 
 
+def r5_unix_reader_bound(r, facts):
+    """the kernel reports 111 for a 108-byte path (no room for the NUL, unix(7) BUGS): the reader must bound the
+    length by the storage before it views sun_path"""
+    f = impl_fn(facts, 'std::os::unix::net::SocketAddr', 'init')
+    if not r.require(f is not None, 'unix::init', 'Unix SocketAddress::init not found'):
+        return
+    eb = ExprBuilder(f, multi='phi')
+    views = [(loc, t) for loc, t in f.calls() if (t.get('callee') or '') in ('std::slice::from_raw_parts', 'std::ptr::slice_from_raw_parts') and not f.blocks[loc[0]]['cleanup']]
+    if not r.require(len(views) >= 1, 'unix::init/view', 'the view of sun_path (slice::from_raw_parts) was not found (unrecognised form)', f.where()):
+        return
+    for loc, t in views:
+        ln = eb.operand(t['args'][1])
+        dep = any(x[0] == 'arg' and x[1] == 2 for x in subexprs(ln))
+        bounded = False
+        for x in subexprs(ln):
+            if x[0] == 'call' and x[1].split('::')[-1] in ('min', 'clamp') and any(
+                    (y[0] == 'call' and y[1].startswith('std::mem::size_of')) or (y[0] == 'const' and y[1] is not None) or (y[0] == 'call' and y[1].endswith('::len'))
+                    for a in x[2] for y in subexprs(a)):
+                bounded = True
+        # or a dominating comparison of the length with a size
+        for (b, tgt) in c10.controlling_switches(f, loc):
+            e = eb.operand(f.term(b)['discr'])
+            if e[0] == 'bin' and e[1] in ('Le', 'Lt', 'Ge', 'Gt') and any(x[0] == 'arg' and x[1] == 2 for x in subexprs(e)) \
+                    and any((y[0] == 'call' and y[1].startswith('std::mem::size_of')) or (y[0] == 'call' and y[1].endswith('::len')) for y in subexprs(e)):
+                bounded = True
+        r.inst('sun_path view of length %s: depends on the kernel length %s, bounded %s' % (str(ln)[:140], dep, bounded), f.where(loc))
+        r.require(not dep or bounded, 'unix::init/unbounded-view', 'sun_path is viewed with the kernel-reported length without bounding it by the storage size: for a socket bound to a 108-byte path the kernel reports 111 (> size_of::<sockaddr_un>()), the slice then extends one byte past the storage (out-of-bounds read)', f.where(loc))
+    r.floor(1)
+
+
 def check(ctx):
     ctx.run('C16.R1', 'writer/reader field and byte-order agreement per address family', r1_field_agreement)
     ctx.run('C16.R1b', 'Unix: writer and reader agree on the position of path / abstract names in sun_path', r1b_unix_layout)
     ctx.run('C16.R2', 'pointer/length shape of as_ptr/as_mut_ptr', r2_ptr_len)
     ctx.run('C16.R3', 'Unix reader cuts the path at the first NUL (kernel lengths include the terminator)', r3_nul_trim)
+    ctx.run('C16.R5', 'Unix reader bounds the kernel-reported length by the storage size before viewing sun_path', r5_unix_reader_bound)
     ctx.run('C16.R4', 'Unix address length depends on the address', r4_unix_length)
